@@ -31,6 +31,7 @@ type C20Case struct {
 	CStats  int      `json:"cstats"`  // stats handlers on the client
 	Single  bool     `json:"single"`  // chain of length 1 installed with UnaryInterceptor/StreamInterceptor instead of Chain*
 	RPCs    int      `json:"rpcs"`    // how many RPCs of this shape, sequentially
+	Unread  bool     `json:"unread"`  // cancel/deadline on streams: the handler first sends one message that the caller never receives
 	Ser     bool     `json:"ser"`
 }
 
@@ -52,6 +53,7 @@ func genC20(t *rapid.T) C20Case {
 	c.CStats = rapid.IntRange(1, 3).Draw(t, "cstats")
 	c.Single = ns == 1 && rapid.Bool().Draw(t, "single")
 	c.RPCs = rapid.IntRange(1, 3).Draw(t, "rpcs")
+	c.Unread = rapid.Bool().Draw(t, "unread") && (c.Kind == kit.KindServer || c.Kind == kit.KindBidi) && (c.Outcome == "cancel" || c.Outcome == "deadline")
 	return c
 }
 
@@ -310,6 +312,9 @@ func execC20(t *testing.T, c C20Case) (v Verdict) {
 			case "herr":
 				return status.Error(codes.NotFound, "nf")
 			case "cancel", "deadline", "transport":
+				if c.Unread {
+					_ = kit.SendBytes(s, []byte("never read"))
+				}
 				<-s.Context().Done()
 				return status.FromContextError(s.Context().Err()).Err()
 			}
@@ -365,6 +370,9 @@ func execC20(t *testing.T, c C20Case) (v Verdict) {
 					_ = cs.CloseSend()
 				}
 				var rep []byte
+				if c.Unread {
+					<-ctx.Done() // leave the handler's message unread until the context has ended
+				}
 				for {
 					b, err := kit.RecvBytes(cs)
 					if err != nil {
@@ -575,7 +583,7 @@ func execC20(t *testing.T, c C20Case) (v Verdict) {
 	if !serveReturned {
 		v.failf("Serve did not return at shutdown")
 	}
-	labels := []string{"kind=" + kit.KindNames[c.Kind], "outcome=" + c.Outcome, fmt.Sprintf("chain=%d", len(c.Server)), fmt.Sprintf("cchain=%d", len(c.Client)), fmt.Sprintf("single=%v", c.Single)}
+	labels := []string{"kind=" + kit.KindNames[c.Kind], "outcome=" + c.Outcome, fmt.Sprintf("unread=%v", c.Unread), fmt.Sprintf("chain=%d", len(c.Server)), fmt.Sprintf("cchain=%d", len(c.Client)), fmt.Sprintf("single=%v", c.Single)}
 	v.Info = kit.CaseInfo{Labels: labels, NonTrivial: len(c.Server) >= 3 || c.Outcome != "ok" || c.SStats >= 2 || c.CStats >= 2, Key: fmt.Sprintf("%+v", c), Sample: c}
 	if v.Fail != "" {
 		d := map[string]any{"traces": traces}
